@@ -354,3 +354,26 @@ def straightline_paths(body, limit=256):
         out.append((conds, stores, None))
     go(list(body), [], {})
     return out
+
+
+def literal_seq(node, fn=None, module_tree=None):
+    """Evaluate a literal list/tuple/set; a Name is resolved through its single assignment in `fn` or, failing that, through a
+    single module-level assignment.  -> python list or None"""
+    seen = 0
+    while isinstance(node, ast.Name) and seen < 3:
+        seen += 1
+        cands = []
+        if fn is not None:
+            cands = [v for st, v, k in local_bindings(fn).get(node.id, []) if k == "assign" and v is not None]
+        if not cands and module_tree is not None:
+            cands = [n.value for n in module_tree.body if isinstance(n, ast.Assign) and len(n.targets) == 1 and text(n.targets[0]) == node.id]
+        if len(cands) != 1:
+            return None
+        node = cands[0]
+    if isinstance(node, ast.Call) and call_name(node) in ("tuple", "list", "set", "frozenset") and len(node.args) == 1:
+        node = node.args[0]
+    try:
+        v = ast.literal_eval(node)
+    except Exception:
+        return None
+    return list(v) if isinstance(v, (list, tuple, set, frozenset)) else None
